@@ -59,6 +59,7 @@ type w1Config struct {
 	layouts       []w1Layout // tag layouts of the shared keys; [0] is the plain one
 	layoutMulti   bool       // several layouts of one metric may travel in the same second of an agent
 	repeatEvents  bool       // a key may be hit by two events of an agent in one second, at different positions
+	skew          bool       // events of the shared keys carry timestamps up to 3 s off the agent's current second
 	faulty        bool
 	faults        w1FaultRates
 	partitions    bool
@@ -286,6 +287,7 @@ func w1Run(t *testing.T, r *verifsim.Run) {
 	// request, but their order inside a metric is the agent's map iteration order.
 	cfg.layoutMulti = c.Intn(2, "layouts_per_metric") == 1
 	cfg.repeatEvents = c.Intn(2, "repeat_events") == 1
+	cfg.skew = c.Intn(2, "timestamp_skew") == 1
 	cfg.faultsStop = cfg.runLen
 	if cfg.faulty {
 		rate := func(label string) int {
@@ -316,6 +318,7 @@ func w1Run(t *testing.T, r *verifsim.Run) {
 	r.Config["short_window"], r.Config["inserters"], r.Config["save_immediately"] = cfg.shortWindow, cfg.inserters, cfg.saveImm
 	r.Config["receive_budget"], r.Config["keys"], r.Config["faulty"] = cfg.receiveBudget, cfg.keys, cfg.faulty
 	r.Config["key_layouts"], r.Config["layouts_per_metric_many"], r.Config["repeat_events"] = fmt.Sprint(layoutIdx), cfg.layoutMulti, cfg.repeatEvents
+	r.Config["event_timestamp_skew"] = cfg.skew
 	if cfg.faulty {
 		r.Config["fault_rates_permille"] = fmt.Sprintf("%+v", cfg.faults)
 		r.Config["partitions"], r.Config["replica_crashes"], r.Config["agent_crashes"], r.Config["faults_stop_s"] = cfg.partitions, cfg.repCrashes, cfg.agentCrashes, cfg.faultsStop
@@ -403,6 +406,13 @@ func w1Run(t *testing.T, r *verifsim.Run) {
 	}
 	r.Event("sched", "end of run at %s", w.ms(time.Now()))
 	w.or.final(w)
+	if !r.Failed() && len(w.or.deferred) != 0 {
+		if os.Getenv("W1_TOLERATE_CROSS_BUCKET_DUP") != "" { // exploration switch, off by default
+			r.Probe("tolerated_duplicate_key_across_buckets")
+		} else {
+			w.report(w.or.deferred[:1])
+		}
+	}
 }
 
 // ---- agents ----------------------------------------------------------------------------------------
@@ -562,21 +572,21 @@ func (l w1Layout) keyString(ts uint32, metric int32) string {
 	return w1KeyString(ts, metric, tags, stags)
 }
 
-func (w *w1World) applySecond(inst *w1Inst, T uint32) {
+func (w *w1World) applySecond(inst *w1Inst, E uint32) {
 	a := inst.agent
 	var scratch []byte
-	apply := func(metric int32, layout w1Layout, fill func(m *tlstatshouse.MetricBytes)) {
+	apply := func(metric int32, ts uint32, layout w1Layout, fill func(m *tlstatshouse.MetricBytes)) {
 		m := tlstatshouse.MetricBytes{Name: []byte(w1MetricNames[metric])}
 		for i, v := range layout.vals {
 			if v != "" {
 				m.Tags = append(m.Tags, tl.DictFieldStringStringBytes{Key: []byte(strconv.Itoa(i)), Value: []byte(v)})
 			}
 		}
-		m.SetTs(T)
+		m.SetTs(ts)
 		fill(&m)
 		var h data_model.MappedMetricHeader
 		h.ReceiveTime = time.Now()
-		h.Key.Timestamp = T
+		h.Key.Timestamp = ts
 		meta := inst.meta.GetMetaMetricByNameBytes(m.Name)
 		h.MetricMeta = meta
 		h.Key.Metric = meta.MetricID
@@ -587,49 +597,105 @@ func (w *w1World) applySecond(inst *w1Inst, T uint32) {
 		}
 		inst.ag.ApplyMetric(&m, &h, &scratch)
 	}
-	apply(w1MetricMarker, w1Layout{vals: [5]string{1: strconv.Itoa(a + 1)}}, func(m *tlstatshouse.MetricBytes) { m.SetCounter(1) })
-	w.noteMarkerGen(a, T, inst.gen)
-	// which (key kind, layout) combinations this agent reports in this second, and in which order the
-	// events arrive: both keyed by (agent, second), so agents differ from each other and seconds differ
-	type combo struct{ k, l, e int } // key kind, layout, event number
+	// The marker of second X is the only event that never carries a skewed timestamp. The oracles read
+	// "the bucket of (agent, X) was merged n times" off its counter, so every bucket that receives a
+	// workload event must hold exactly one marker event of the agent process that fills it.
+	marker := func(X uint32) {
+		apply(w1MetricMarker, X, w1Layout{vals: [5]string{1: strconv.Itoa(a + 1)}}, func(m *tlstatshouse.MetricBytes) { m.SetCounter(1) })
+		w.noteMarkerGen(a, X, inst.gen)
+	}
+	if gen, ok := w.or.marker[w1AT{a, E}]; !ok || gen != inst.gen { // not yet put there together with an early event
+		marker(E)
+	}
+	// the agent's own clock (white-box, read at quiescence): an event stamped older than sendTime joins
+	// the bucket of sendTime and keeps its own timestamp, an event stamped up to 3 s ahead of
+	// currentTime waits in the bucket of its own second, anything further ahead is clamped
+	curTime, sendTime := agent.VerifW1Clock(inst.ag)
+	// which (row second, key kind, layout) combinations this agent reports now, and in which order the
+	// events arrive. Every (agent, row second X, kind, layout) is reported in exactly one second
+	// E = X - d, with d in [-3,+3] keyed by that tuple (d = 0 in runs without timestamp skew); the order
+	// is keyed by (agent, E), so agents differ from each other and seconds differ.
+	type combo struct {
+		k, l, e int // key kind, layout, event number
+		X       uint32
+	}
 	var combos []combo
-	add := func(k, l int) {
-		combos = append(combos, combo{k, l, 0})
-		if w.cfg.repeatEvents && w.c.Keyed(2, 7001, uint64(a), uint64(T), uint64(k), 101, uint64(l)) == 1 {
-			combos = append(combos, combo{k, l, 1})
+	add := func(X uint32, k, l int) {
+		if w.cfg.skew {
+			if d := int(w.c.Keyed(7, 7004, uint64(a), uint64(X), uint64(k), uint64(l))) - 3; int64(X) != int64(E)+int64(d) {
+				return // reported in another second
+			}
+		}
+		if X != E {
+			if X > curTime+3 {
+				w.r.Probe("harness_event_too_far_ahead_of_agent_clock_skipped")
+				return
+			}
+			B := X // the bucket the event will sit in
+			if B < sendTime {
+				B = sendTime
+			}
+			if gen, ok := w.or.marker[w1AT{a, B}]; !ok {
+				marker(B) // B >= sendTime: sits in bucket B with the bucket's own timestamp
+			} else if gen != inst.gen {
+				// that second's marker was given to a process that has been killed since; its bucket may be on
+				// the wire already, and a second marker payload for one (agent, second) is not what C03's
+				// attribution can tell apart
+				w.r.Probe("harness_skewed_event_into_predecessors_second_skipped")
+				return
+			}
+			if X < E {
+				w.r.Probe("event_with_older_timestamp")
+			} else {
+				w.r.Probe("event_with_future_timestamp")
+			}
+			if B != X {
+				w.r.Probe("late_event_joins_a_later_bucket")
+			}
+		}
+		combos = append(combos, combo{k, l, 0, X})
+		if w.cfg.repeatEvents && w.c.Keyed(2, 7001, uint64(a), uint64(X), uint64(k), 101, uint64(l)) == 1 {
+			combos = append(combos, combo{k, l, 1, X})
 		}
 	}
-	for k := 0; k < w.cfg.keys; k++ {
-		if !w.cfg.layoutMulti {
-			if w.c.Keyed(4, 7001, uint64(a), uint64(T), uint64(k), 100, 0) != 0 { // a quarter stays silent
-				add(k, int(w.c.Keyed(uint64(len(w.cfg.layouts)), 7003, uint64(a), uint64(T), uint64(k))))
+	lo, hi := 0, 0
+	if w.cfg.skew {
+		lo, hi = -3, 3
+	}
+	for d := lo; d <= hi; d++ {
+		X := uint32(int64(E) + int64(d))
+		for k := 0; k < w.cfg.keys; k++ {
+			if !w.cfg.layoutMulti {
+				if w.c.Keyed(4, 7001, uint64(a), uint64(X), uint64(k), 100, 0) != 0 { // a quarter stays silent
+					add(X, k, int(w.c.Keyed(uint64(len(w.cfg.layouts)), 7003, uint64(a), uint64(X), uint64(k))))
+				}
+				continue
 			}
-			continue
-		}
-		for l := range w.cfg.layouts {
-			silent := w.c.Keyed(4, 7001, uint64(a), uint64(T), uint64(k), 100, uint64(l)) == 0 // a quarter stays silent
-			if l != 0 {
-				silent = w.c.Keyed(2, 7001, uint64(a), uint64(T), uint64(k), 100, uint64(l)) == 0 // extra layouts: half
-			}
-			if !silent {
-				add(k, l)
+			for l := range w.cfg.layouts {
+				silent := w.c.Keyed(4, 7001, uint64(a), uint64(X), uint64(k), 100, uint64(l)) == 0 // a quarter stays silent
+				if l != 0 {
+					silent = w.c.Keyed(2, 7001, uint64(a), uint64(X), uint64(k), 100, uint64(l)) == 0 // extra layouts: half
+				}
+				if !silent {
+					add(X, k, l)
+				}
 			}
 		}
 	}
 	for i := len(combos) - 1; i > 0; i-- {
-		j := int(w.c.Keyed(uint64(i+1), 7002, uint64(a), uint64(T), uint64(i)))
+		j := int(w.c.Keyed(uint64(i+1), 7002, uint64(a), uint64(E), uint64(i)))
 		combos[i], combos[j] = combos[j], combos[i]
 	}
 	for _, cb := range combos {
-		k, layout := cb.k, w.cfg.layouts[cb.l]
+		k, X, layout := cb.k, cb.X, w.cfg.layouts[cb.l]
 		v := func(i int, n uint64) uint64 {
-			return w.c.Keyed(n, 7001, uint64(a), uint64(T), uint64(k), uint64(i), uint64(cb.l), uint64(cb.e))
+			return w.c.Keyed(n, 7001, uint64(a), uint64(X), uint64(k), uint64(i), uint64(cb.l), uint64(cb.e))
 		}
 		switch k {
 		case 0:
-			apply(w1MetricCnt, layout, func(m *tlstatshouse.MetricBytes) { m.SetCounter(float64(1 + v(0, 5))) })
+			apply(w1MetricCnt, X, layout, func(m *tlstatshouse.MetricBytes) { m.SetCounter(float64(1 + v(0, 5))) })
 		case 1:
-			apply(w1MetricVal, layout, func(m *tlstatshouse.MetricBytes) {
+			apply(w1MetricVal, X, layout, func(m *tlstatshouse.MetricBytes) {
 				n := int(1 + v(0, 3))
 				var vals []float64
 				for i := 0; i < n; i++ {
@@ -643,10 +709,10 @@ func (w *w1World) applySecond(inst *w1Inst, T uint32) {
 			for i := 0; i < n; i++ {
 				vals = append(vals, int64(1000+v(1+i, 40)))
 			}
-			apply(w1MetricUniq, layout, func(m *tlstatshouse.MetricBytes) { m.SetUnique(vals) })
-			w.or.noteUnique(a, T, layout.keyString(T, w1MetricUniq), vals)
+			apply(w1MetricUniq, X, layout, func(m *tlstatshouse.MetricBytes) { m.SetUnique(vals) })
+			w.or.noteUnique(a, layout.keyString(X, w1MetricUniq), vals)
 		case 3:
-			apply(w1MetricPct, layout, func(m *tlstatshouse.MetricBytes) {
+			apply(w1MetricPct, X, layout, func(m *tlstatshouse.MetricBytes) {
 				n := int(1 + v(0, 3))
 				var vals []float64
 				for i := 0; i < n; i++ {
